@@ -849,6 +849,12 @@ class Interp:
                     if idiom:
                         self.rebind_target(node, idiom(self, sn, obj, src, L))
                         return None
+            if isinstance(src, GenExp) and src.kind == 'genexp' and is_z3(src.iter) and not src.ifs:
+                lsn = self.sort_of(src.iter)
+                idiom = getattr(U, 'extend_forward_idiom', None)
+                if lsn in U.lists and U.lists[lsn].kind == 'fwd' and idiom:
+                    self.rebind_target(node, idiom(self, sn, obj, src, src.iter))
+                    return None
             raise OutsideSubset('extend shape: %s' % short(node))
         raise OutsideSubset('list method %s on %s list' % (name, info.kind))
 
@@ -1298,8 +1304,12 @@ class Interp:
         if self.out is not None:
             self.out = self.fresh(self.out_sort, 'out')
             self.env['__out__'] = self.out
-        # variables first assigned inside the body are not live at the loop head
-        head_env = dict(self.env)
+        # the loop-head state is what a counter-model of a loop-cut obligation describes
+        self.inputs = dict(self.inputs)
+        self.inputs['@loop%d' % ordinal] = {n: self.env[n] for n in sorted(targets)
+                                            if n in self.env and (is_z3(self.env[n]) or isinstance(self.env[n], tuple))}
+        if self.out is not None:
+            self.inputs['@loop%d' % ordinal]['__out__'] = self.out
         self.loop_ctx[-1] = (ordinal, len(self.trace))
         for cl in spec.inv:
             self.assume(self.to_bool(self.ev_pure(cl.node)))
